@@ -305,6 +305,48 @@ let run_lzss toks =
   | [d] -> (match Lzss.decompress (bytes_of_hex d) with Ok out -> "ok:" ^ (let h = hex_of_bytes out in String.sub h 2 (String.length h - 2)) | Err e -> "e:" ^ err_name e)
   | _ -> failwith "lzss args"
 
+(* ---- C15: threads, locks, shared positions -------------------------------- *)
+let run_sched toks =
+  match toks with
+  | [lockofs; inits; files; progs; schedule] ->
+    let split c s = if s = "-" || s = "" then [] else String.split_on_char c s in
+    let pairs s = Stdlib.List.map (fun kv -> match String.split_on_char ':' kv with [k; v] -> (int_of_string k, v) | _ -> failwith "pair") (split ',' s) in
+    let lk = Stdlib.List.map (fun (k, v) -> (k, int_of_string v)) (pairs lockofs) in
+    let lockof n = nat_of_int (try Stdlib.List.assoc (int_of_nat n) lk with Not_found -> 0) in
+    let iv = Stdlib.List.map (fun (k, v) -> (k, z_of_hex v)) (pairs inits) in
+    let s0 n = (try Stdlib.List.assoc (int_of_nat n) iv with Not_found -> Z0) in
+    let fl = Stdlib.List.map (fun (k, v) -> (k, z_of_hex v)) (pairs files) in
+    let cont f = ((try Stdlib.List.assoc (int_of_nat f) fl with Not_found -> Z0), (fun (i : coq_Z) -> Z0)) in
+    let var s = let k = nat_of_int (int_of_string (String.sub s 1 (String.length s - 1))) in if s.[0] = 's' then Sched.Sh k else Sched.Lo k in
+    let expr s = match s.[0] with
+      | 'c' -> Sched.EConst (z_of_hex (String.sub s 1 (String.length s - 1)))
+      | 'L' -> Sched.EVarLast (var (String.sub s 1 (String.length s - 1)))
+      | 'v' -> (match String.split_on_char '+' (String.sub s 1 (String.length s - 1)) with
+                | [v; c] -> Sched.EVar (var v, z_of_hex c) | _ -> failwith "expr")
+      | _ -> failwith "expr" in
+    let action s = let body = String.sub s 1 (String.length s - 1) in
+      match s.[0] with
+      | 'A' -> Sched.Acq (nat_of_int (int_of_string body))
+      | 'R' -> Sched.Rel (nat_of_int (int_of_string body))
+      | 'S' -> (match String.split_on_char '=' body with [v; e] -> Sched.Set_ (var v, expr e) | _ -> failwith "set")
+      | 'D' -> (match String.split_on_char ':' body with [v; f; n] -> Sched.Read (var v, nat_of_int (int_of_string f), z_of_hex n) | _ -> failwith "read")
+      | 'W' -> (match String.split_on_char ':' body with [v; f; n] -> Sched.Write (var v, nat_of_int (int_of_string f), Stdlib.List.init (int_of_string n) (fun _ -> Z0)) | _ -> failwith "write")
+      | 'T' -> Sched.Tell (var body)
+      | _ -> failwith "action" in
+    let ps = Stdlib.List.map (fun p -> Stdlib.List.map action (split ',' p)) (String.split_on_char '/' progs) in
+    let sched = Stdlib.List.map (fun x -> nat_of_int (int_of_string x)) (split ',' schedule) in
+    let g = Sched.guarded lockof ps in
+    let c = Sched.run lockof (Sched.init_cfg ps s0 cont) sched in
+    let show_obs = function
+      | Sched.OBytes (p, b) -> "B" ^ hex_of_z p ^ ":" ^ string_of_int (Stdlib.List.length b)
+      | Sched.OPos p -> "P" ^ hex_of_z p
+      | Sched.OWrote (p, n) -> "W" ^ hex_of_z p ^ ":" ^ string_of_int (int_of_z n) in
+    let n = Stdlib.List.length ps in
+    let per t = let th = c.Sched.ths (nat_of_int t) in
+      (if th.Sched.rem = [] then "F" else "U") ^ String.concat "," (Stdlib.List.map show_obs th.Sched.outS) in
+    (if g then "guarded" else "unguarded") ^ " " ^ String.concat "/" (Stdlib.List.init n per)
+  | _ -> failwith "sched args"
+
 let dispatch (line : string) : string =
   match String.split_on_char ' ' (String.trim line) with
   | "engine" :: toks -> run_engine toks
@@ -323,6 +365,7 @@ let dispatch (line : string) : string =
   | "close" :: toks -> run_close toks
   | "nandhdr" :: toks -> run_nandhdr toks
   | "lzss" :: toks -> run_lzss toks
+  | "sched" :: toks -> run_sched toks
   | "nandinfer" :: toks -> run_nandinfer toks
   | e :: _ -> failwith ("unknown entry " ^ e)
   | [] -> ""
